@@ -54,6 +54,13 @@ def fields_bracketed_around_await(o, self_term):
     out = []
     cur = {}              # field -> value after the last store so far
     ev = list(o.st.ev)
+    # what a destructor does (events between ('drop', 'begin') and ('drop', 'end')) also happens when the pending future is
+    # dropped, so a restore made there is not skipped by cancellation
+    in_drop, depth = [], 0
+    for e in ev:
+        if e[0] == 'drop':
+            depth += 1 if e[1] == 'begin' else -1
+        in_drop.append(depth > 0)
     for i, e in enumerate(ev):
         if e[0] == 'store' and e[1][0] == 'field' and e[1][1] == self_term:
             cur[e[1][2]] = e[2]
@@ -61,7 +68,7 @@ def fields_bracketed_around_await(o, self_term):
             for fld, val in cur.items():
                 if sem.strip_site(val) == ('field', self_term, fld):
                     continue
-                later = any(x[0] == 'store' and x[1][0] == 'field' and x[1][1] == self_term and x[1][2] == fld for x in ev[i + 1:])
+                later = any(x[0] == 'store' and x[1][0] == 'field' and x[1][1] == self_term and x[1][2] == fld and not in_drop[j] for j, x in enumerate(ev) if j > i)
                 if later and (fld, absx.fmt(val)[:40]) not in out:
                     out.append((fld, absx.fmt(val)[:40]))
     return out
